@@ -145,7 +145,11 @@ type rlModel struct {
 
 func (m *rlModel) captureSupply() {
 	for _, k := range m.keys {
-		m.supply[k] = m.w.Supply(k.chain, k.denom).Amount.Int64()
+		a := m.w.Supply(k.chain, k.denom).Amount
+		if !a.IsInt64() {
+			vx.Harnessf("supply of %q on chain %d is %s", k.denom, k.chain, a)
+		}
+		m.supply[k] = a.Int64()
 	}
 }
 
@@ -318,7 +322,7 @@ func (m *rlModel) undo(q *rlPkt, send bool) {
 
 // ---- the world --------------------------------------------------------------------------------
 
-var rlBase = [2]string{"ufoo", "ubar"}
+var rlBase = [2]string{"uaaa", "ubbb"} // not "ufoo": ibctesting pre-funds every genesis account with it
 
 type rlWorld struct {
 	w     *sim.World
@@ -648,6 +652,7 @@ func runC41(outer *testing.T) func(t rapid.TB, c rlCase, rec *vx.Case) {
 				m.syncEpoch(1)
 				if !res.OK {
 					rec.Class("recv-tx-failed") // e.g. the packet has expired
+					dbg("step %d recv tx failed: %v %s", i, res.Err, logOf(res))
 					break
 				}
 				q.received = true
@@ -722,6 +727,7 @@ func runC41(outer *testing.T) func(t rapid.TB, c rlCase, rec *vx.Case) {
 				m.syncEpoch(1)
 				if !res.OK {
 					rec.Class(op.K + "-tx-failed")
+					dbg("step %d %s tx failed: %v %s", i, op.K, res.Err, logOf(res))
 					break
 				}
 				q.resolved = true
@@ -957,19 +963,24 @@ func demoC41(name string) rlCase {
 
 var c41Demos = []string{sigStaleSendUpdate, sigStaleSendRemove, sigStaleRecvUpdate, sigZeroCV}
 
+type rlDemoSet struct {
+	Demos []string `json:"demos"`
+}
+
 func TestC41Known(t *testing.T) {
 	run := runC41(t)
-	vx.Check(t, vx.Prop[rlCase]{
+	vx.Check(t, vx.Prop[rlDemoSet]{
 		ID:        c41,
-		Rule:      "deterministic re-demonstrations of the recorded C41 findings (one fixed history per signature); every case is non-trivial",
+		Rule:      "deterministic re-demonstrations of the recorded C41 findings: one fixed history per signature, all of them in every case",
 		MinNTFrac: 0,
-		Gen: func(t *rapid.T) rlCase {
-			return demoC41(rapid.SampledFrom(c41Demos).Draw(t, "demo"))
+		Gen: func(t *rapid.T) rlDemoSet {
+			return rlDemoSet{Demos: rapid.Just(c41Demos).Draw(t, "demos")}
 		},
-		Run: func(t rapid.TB, c rlCase, rec *vx.Case) {
-			rec.Class("demo-" + c.Demo)
-			run(t, c, rec)
+		Run: func(t rapid.TB, c rlDemoSet, rec *vx.Case) {
+			for _, d := range c.Demos {
+				rec.Class("demo-" + d)
+				run(t, demoC41(d), rec)
+			}
 		},
 	})
 }
-
